@@ -1,5 +1,8 @@
 //! Independent oracles, written from the RFC texts; no code or tables shared with /repo.
 
+pub mod huffman;
+pub mod huffman_table;
+pub mod qpack;
 pub mod varint;
 
 /// Cross-checks of the reference implementations against RFC vectors and against `octets`.
@@ -13,5 +16,7 @@ pub fn selftest() -> i32 {
         }
     };
     check("varint", varint::selftest());
+    check("huffman", huffman::selftest());
+    check("qpack", qpack::selftest());
     bad
 }
